@@ -295,6 +295,15 @@ func Eq(a, b *Term) *Term {
 		if d.IsConst() {
 			return BoolC(d.I.Sign() == 0)
 		}
+		for _, pr := range [][2]*Term{{a, b}, {b, a}} {
+			if pr[0].Op == "str.to_code" && pr[1].IsConst() {
+				if al := alphabetOfChar(pr[0].Args[0]); al != "" {
+					if !pr[1].I.IsInt64() || pr[1].I.Int64() < 0 || pr[1].I.Int64() > 255 || strings.IndexByte(al, byte(pr[1].I.Int64())) < 0 {
+						return False
+					}
+				}
+			}
+		}
 		if d.lo != nil && d.lo.Sign() > 0 || d.hi != nil && d.hi.Sign() < 0 {
 			return False
 		}
@@ -763,6 +772,18 @@ func StrToCode(s *Term) *Term {
 	if s.Op == "str.from_code!" {
 		return s.Args[0]
 	}
+	if a := alphabetOfChar(s); a != "" {
+		lo, hi := byte(255), byte(0)
+		for i := 0; i < len(a); i++ {
+			if a[i] < lo {
+				lo = a[i]
+			}
+			if a[i] > hi {
+				hi = a[i]
+			}
+		}
+		return mkInt("str.to_code", big.NewInt(int64(lo)), big.NewInt(int64(hi)), s)
+	}
 	return mkInt("str.to_code", big.NewInt(-1), big.NewInt(255), s)
 }
 
@@ -793,6 +814,9 @@ func StrPrefixOf(p, s *Term) *Term { // p is a prefix of s
 	}
 	if p.IsConst() && p.S == "" {
 		return True
+	}
+	if p.IsConst() && s.Op == "str.from_int" && (p.S[0] < '0' || p.S[0] > '9') {
+		return False // decimal renderings consist of digits only
 	}
 	if p.IsConst() && s.Op == "str.++" && s.Args[0].IsConst() {
 		h := s.Args[0].S
@@ -829,7 +853,51 @@ func StrIndexOf(s, sub, from *Term) *Term {
 		}
 		return IntC(int64(i + f))
 	}
+	if sub.IsConst() && len(sub.S) == 1 && from.IsConst() && from.I.Sign() == 0 {
+		// single-character search through a concatenation whose leading pieces are known not
+		// to contain the character (constants, UF results over a known alphabet)
+		pieces := []*Term{s}
+		if s.Op == "str.++" {
+			pieces = s.Args
+		}
+		off := IntC(0)
+		all := true
+		for _, p := range pieces {
+			if p.IsConst() {
+				if i := strings.IndexByte(p.S, sub.S[0]); i >= 0 {
+					return Add(off, IntC(int64(i)))
+				}
+			} else if p.Op == "app" && ufFreeOf(p.S, sub.S[0]) {
+				// cannot contain the character
+			} else {
+				all = false
+				break
+			}
+			off = Add(off, StrLen(p))
+		}
+		if all {
+			return IntC(-1)
+		}
+	}
 	return mkInt("str.indexof", big.NewInt(-1), maxStrLen, s, sub, from)
+}
+
+// alphabetOfChar: if s is a single character taken (in range) from the result of an
+// uninterpreted function with a known alphabet, that alphabet; else "".
+func alphabetOfChar(s *Term) string {
+	if s.Op == "substr!" && s.Args[0].Op == "app" && s.Args[2].IsConst() && s.Args[2].I.Int64() == 1 {
+		return ufAlphabet[s.Args[0].S]
+	}
+	return ""
+}
+
+// ufAlphabet: uninterpreted functions whose results range over a known alphabet (the matching
+// solver-side axiom is emitted with each application, see smt.go).
+var ufAlphabet = map[string]string{}
+
+func ufFreeOf(uf string, c byte) bool {
+	a, ok := ufAlphabet[uf]
+	return ok && strings.IndexByte(a, c) < 0
 }
 
 func StrReplaceAll(s, old, new *Term) *Term {
@@ -867,6 +935,9 @@ func StrToInt(s *Term) *Term {
 		}
 		v, _ := new(big.Int).SetString(s.S, 10)
 		return IntBig(v)
+	}
+	if s.Op == "str.from_int" && s.Args[0].lo != nil && s.Args[0].lo.Sign() >= 0 {
+		return s.Args[0] // to_int(from_int(x)) = x for x >= 0
 	}
 	return mkInt("str.to_int", big.NewInt(-1), nil, s)
 }
